@@ -38,6 +38,7 @@ USER_TABLES = [
     {'mten': 'margin: 10px;', 'fsz': 'font-size', 'myCenterAwesome': 'body {\n\tdisplay: grid;\n}'},
     {'p': 'foo-bar:baz|qux', 'annii': 'a-b:${1:x} ${2}', 'raw': 'x ${1} y ${2:z} ${3'},
     {'gt': 'grid-template: repeat(2,auto) / repeat(auto-fit, minmax(250px, 1fr))', 'bxsh': 'box-shadow: var(--bxsh-${1})'},
+    {'x': 'a:b|', 'y': 'c-d:|', 'z': 'e: ;', 'p': 'padding:||1px'},
 ]
 
 
@@ -140,7 +141,7 @@ def check_oracle(ctx, cases, impl, tag):
 def run_css(ctx):
     ok = ctx.build(['props/C07Css.vo', 'run/StyleRun.vo', 'run/StyleShow.vo'])
     if ok:
-        ctx.obligations('props/C07Css.v')
+        su.obligations(ctx, 'props/C07Css.v')
     stage_cases, full, (n_ex, n_alpha, n_full) = gen(ctx)
     rule = ('css: (a) every string up to length %d over a %d..26-character stylesheet alphabet through expand(type=stylesheet) '
             '[default and @@value scope], tied to the extracted tokenizer+parser model; (b) corpus + every string up to length %d '
